@@ -359,12 +359,13 @@ func c07Run(tier string, seed int64, idx int) *core.Result {
 
 func init() {
 	core.Register(&core.Prop{
-		ID:         "C07",
-		Level:      "fault_enumeration",
-		Rule:       "scenarios = 7 program pairs over the 3 streaming kinds (ping-pong, send-all, burst, handler waiting after half-close / after k messages, 0..5 responses queued unread) x {alone, 2 other calls active (thorough; two quick scenarios)}; the cancellation (explicit cancel or manual deadline expiry) is placed after EVERY prefix of the wire trace (tap callback on the n-th delivered envelope, n = 0..trace length). Checked at final states: every pending and later operation returned, later RecvMsg gives Canceled/DeadlineExceeded (or io.EOF only if the stream's trailer is on the wire), later sends fail, exactly one reset went out unless the trailer had been delivered, the handler is not left running with a live context, a probe call succeeds. Non-trivial = the cancellation landed while the stream was open; distinct = (scenario, how, position, plan). Plus families over the shipped transports: (websocket, loopback sockets with stalling writes) cancel / deadline while a 64 KiB send of the stream is half-way onto the socket - the send returns, later receives carry the context's status, the handler's context ends, hangs judged at final states of the socket scenario; (HTTP, two instances behind loopback servers) cancel / deadline while the POST of a send is held in front of the server endpoint - the handler's context must end within 20 s.",
-		Plan:       func(tier string, seed int64) int { return len(c07List(tier)) },
-		Run:        c07Run,
-		Exhaustive: func(string) bool { return true },
+		ID:             "C07",
+		Level:          "fault_enumeration",
+		Rule:           "scenarios = 7 program pairs over the 3 streaming kinds (ping-pong, send-all, burst, handler waiting after half-close / after k messages, 0..5 responses queued unread) x {alone, 2 other calls active (thorough; two quick scenarios)}; the cancellation (explicit cancel or manual deadline expiry) is placed after EVERY prefix of the wire trace (tap callback on the n-th delivered envelope, n = 0..trace length). Checked at final states: every pending and later operation returned, later RecvMsg gives Canceled/DeadlineExceeded (or io.EOF only if the stream's trailer is on the wire), later sends fail, exactly one reset went out unless the trailer had been delivered, the handler is not left running with a live context, a probe call succeeds. Non-trivial = the cancellation landed while the stream was open; distinct = (scenario, how, position, plan). Plus families over the shipped transports: (websocket, loopback sockets with stalling writes) cancel / deadline while a 64 KiB send of the stream is half-way onto the socket - the send returns, later receives carry the context's status, the handler's context ends, hangs judged at final states of the socket scenario; (HTTP, two instances behind loopback servers) cancel / deadline while the POST of a send is held in front of the server endpoint - the handler's context must end within 20 s.",
+		Plan:           func(tier string, seed int64) int { return len(c07List(tier)) },
+		ThoroughRounds: 8,
+		Run:            c07Run,
+		Exhaustive:     func(string) bool { return true },
 		RequiredStats: func(string) []string {
 			return []string{"cancellations_checked", "resets_observed", "handler_contexts_checked", "stream_completed_or_failed_at_open", "ws_cancel_mid_write_cases", "http_cancel_during_send_cases"}
 		},
